@@ -67,6 +67,12 @@ CHECKS = {
              'independent codec; every truncation, trailing byte, flag-byte corruption, non-canonical or oversized compact size must be rejected with a diagnostic; amount prefixes must convert to satoshis exactly.',
         note='trusted: ref/tx.py (anchored byte-exactly on doc/txs); amounts judged for |x| < 10^18 satoshi with up to 8 fractional digits',
         ref='5 C13'),
+    'C14': dict(
+        technique='runtime monitoring: reference-function monitor over the real tf command implementation (harness + scripted REPL), inline forms and opcode forms (ASan+UBSan build)',
+        text='Exploration: every transform of the tf table is evaluated by the real code on arguments across SHA block (55/56/64) and compact-size (252/253, 65535/65536) boundaries and compared with hashlib / independent base58, bech32(m), '
+             'compact-size, 256-bit modular arithmetic, Jacobi symbol and secp256k1 implementations; encode/decode pairs must invert each other and reject single-character corruptions; the inline form and the script opcode must give the same bytes as the command.',
+        note='trusted: hashlib, ref/codec.py, ref/secp.py; documented leniencies in the evidence assumptions (byte order of jacobi operands, bech32 witness version, reverse of integers not judged)',
+        ref='5 C14'),
     'C16': dict(
         technique='runtime monitoring: reference-model monitor over Instance::eval() at random session prefixes (ASan+UBSan build)',
         text='Exploration: exec token lists (opcode names, decimals, hex pushes, invalid tokens) are issued at the start, middle, last operation and end of model-steered sessions; the state after exec is compared with the reference '
